@@ -77,6 +77,14 @@ ValidEscape(in, out) ==
     ELSE \E r \in EscAlternatives(Head(in)) :
             /\ IsPrefixOf(r, out)
             /\ ValidEscape(Tail(in), Drop(out, Len(r)))
+\* the escape of an escape: every accepted reference of the first application has exactly one escape
+\* (its "&" becomes "&amp;", the rest of a reference holds no special character)
+RECURSIVE ValidEscape2(_, _)
+ValidEscape2(in, out) ==
+    IF in = <<>> THEN out = <<>>
+    ELSE \E r \in EscAlternatives(Head(in)) :
+            /\ IsPrefixOf(Escape(r), out)
+            /\ ValidEscape2(Tail(in), Drop(out, Len(Escape(r))))
 NoRawSpecial(out) == \A i \in 1..Len(out) : out[i] \in (HtmlSpecial \ {cAMP}) => FALSE
 
 =============================================================================
